@@ -703,7 +703,25 @@ def no_narrowing(rep, prog):
 LETTER_CLASS = re.compile(r"^\(*\[A-Z(a-z)?_?\]\)*(\{\d+,\d*\})?$")
 
 
+def _fixed_windows(prog, fn):
+    """substr(pos, N) on the text of the file with a length N that is a constant: the text behind the window is never looked at"""
+    from ..model import expand
+    out = []
+    for c in walk(fn["body"]):
+        if c.get("k") == "CXXMemberCallExpr" and c.get("callee", "").endswith("::substr") and len(call_args(c)) == 2:
+            n_ = strip(expand(fn, call_args(c)[1]))
+            while n_.get("k") in ("ImplicitCastExpr", "ParenExpr", "CStyleCastExpr", "CXXStaticCastExpr", "ConstantExpr") and n_.get("c"):
+                n_ = strip(n_["c"][-1])
+            if n_.get("k") == "IntegerLiteral" and int(n_.get("v", "0")) > 1:
+                out.append((c, int(n_["v"])))
+    return out
+
+
 def array_extent(rep, prog, sections, warr):
+    for fn_ in {id(f): f for _k, f in sections}.values():
+        for c, n_ in _fixed_windows(prog, fn_):
+            rep.violation("C16.array-extent", prog, fn_, c, "an array of the file is searched within a window of fixed size",
+                          "%s takes '%s', a window of %d characters, of the text of the file and looks for the end of the array inside it: an array that is longer than the window (its length grows with the number of cells) has no terminator there, the reader then takes the truncated text for the whole array and returns fewer values than the file declares" % (fn_["qn"], short(c, 70), n_))
     # the writer wraps arrays: a newline is emitted inside the per-value loop of the data arrays
     wraps = any(x.get("k") == "StringLiteral" and "\n" in x.get("v", "") for l in walk(warr["body"]) if l.get("k") == "ForStmt" for x in walk(l["body"]))
     for key, fn in sections:
